@@ -1,6 +1,7 @@
 import Hls.Playlist.MediaNear
 import Hls.Playlist.MediaGenPins
 import Hls.Playlist.MediaPerm
+import Hls.Playlist.MediaTime
 /-!
 # C14 — Playlist Marshal/Unmarshal round-trips every field (MEDIA playlists)
 
@@ -159,8 +160,24 @@ theorem c14_t1_tables :
 
 /-! ## the hypotheses are satisfiable -/
 
-/-- a codec inside the envelope exists -/
-theorem c14_codec_exists : Codec.exact.Valid := Codec.exact_valid
+/-- a codec inside the envelope exists: exact decimal durations with the REAL Go time layout
+(`goFormatTime` / `goParseTime`, the model of `Time.Format` / `parseTime` that T2 validates) -/
+theorem c14_codec_exists : Codec.exactGo.Valid ∧ Codec.exact.Valid := ⟨Codec.exactGo_valid, Codec.exact_valid⟩
+
+/-- **The Go time layout is proved, not assumed**: for well-formed times `parseTime (Format t)` is the
+same instant at 1 ms with the same zone (civil-calendar round trip + layout parser), formatting is
+stable under millisecond truncation and uses RFC 3339 characters.  Hence any codec with the Go time
+layout is `Valid` as soon as its duration half is inside the float envelope. -/
+theorem c14_go_time (D : Codec) (h : D.DurValid) : D.withGoTime.Valid := Codec.withGoTime_valid h
+
+/-- **Round trip and fixpoint for the driver's codec `Codec.go`** (exact IEEE-754 semantics of `strconv`,
+Go time layout) under the single named hypothesis `IeeeEnvelope` (float error envelope, DESIGN §2). -/
+theorem c14_media_roundtrip_go (hE : IeeeEnvelope) (p : Media) (hw : WFMedia p) :
+    Media.unmarshal Codec.go (Media.marshal Codec.go p) = .ok (Media.quantise Codec.go p) ∧
+    MediaNear (Media.quantise Codec.go p) p ∧
+    Media.marshal Codec.go (Media.quantise Codec.go p) = Media.marshal Codec.go p :=
+  ⟨Media.roundtrip (Codec.go_valid hE) p hw, Media.quantise_near (Codec.go_valid hE) p hw,
+   Media.marshal_quantise (Codec.go_valid hE) p hw⟩
 
 def sampleKey : Key := { method := cs!"AES-128", uri := cs!"k.bin", iv := cs!"0x0123456789abcdef0123456789ABCDEF" }
 
@@ -184,8 +201,12 @@ def sample : Media :=
 
 example : WFMedia sample := by decide
 
+/-- on the sample the statement is not vacuous (both hypotheses hold): the theorem instantiated -/
+example : Media.unmarshal Codec.exactGo (Media.marshal Codec.exactGo sample) = .ok (Media.quantise Codec.exactGo sample) :=
+  c14_media_roundtrip Codec.exactGo Codec.exactGo_valid sample (by decide)
+
 set_option maxRecDepth 100000 in
-/-- on the sample the statement is not vacuous: decoding the encoding gives the quantised value -/
+/-- and evaluated by the kernel, independently of the proof (codec with the synthetic time text) -/
 example : Media.unmarshal Codec.exact (Media.marshal Codec.exact sample) = .ok (Media.quantise Codec.exact sample) := by
   decide
 
@@ -208,27 +229,27 @@ example : WFMedia pF1 ∧ WFMedia pF2 ∧ WFMedia pF3 := by decide
 set_option maxRecDepth 100000 in
 /-- F1: `Media.Marshal` never emits EXT-X-START: the field is lost -/
 theorem c14_legacy_F1_start_lost :
-    Media.unmarshal Codec.exact (Media.marshalLegacy Codec.exact pF1) = .ok { pF1 with start := none } := by decide
+    Media.unmarshal Codec.exactGo (Media.marshalLegacy Codec.exactGo pF1) = .ok { pF1 with start := none } := by decide
 
 set_option maxRecDepth 100000 in
 /-- F2: EXT-X-DISCONTINUITY-SEQUENCE is written with the media sequence value: 5 comes back as 7 -/
 theorem c14_legacy_F2_discontinuity_sequence :
-    Media.unmarshal Codec.exact (Media.marshalLegacy Codec.exact pF2) = .ok { pF2 with discontinuitySequence := some 7 } := by
+    Media.unmarshal Codec.exactGo (Media.marshalLegacy Codec.exactGo pF2) = .ok { pF2 with discontinuitySequence := some 7 } := by
   decide
 
 set_option maxRecDepth 100000 in
 /-- F3: `#EXT-X-SERVER-CONTROL:,PART-HOLD-BACK=3.00000` — the first key becomes `,PART-HOLD-BACK`, the value is lost -/
 theorem c14_legacy_F3_server_control :
-    Media.marshalLegacy Codec.exact pF3 =
+    Media.marshalLegacy Codec.exactGo pF3 =
       cs!"#EXTM3U\n#EXT-X-VERSION:9\n#EXT-X-TARGETDURATION:2\n#EXT-X-SERVER-CONTROL:,PART-HOLD-BACK=3.00000\n#EXT-X-MEDIA-SEQUENCE:0\n#EXTINF:2.00000,\ns.ts\n" ∧
-    Media.unmarshal Codec.exact (Media.marshalLegacy Codec.exact pF3) = .ok { pF3 with serverControl := some {} } := by
+    Media.unmarshal Codec.exactGo (Media.marshalLegacy Codec.exactGo pF3) = .ok { pF3 with serverControl := some {} } := by
   decide
 
 /-! ## every clause of `WFMedia` is needed by the text format (negative examples)
 
 For each clause: a value violating only that clause, for which the round trip is false. -/
 
-abbrev rt (p : Media) : Prop := Media.unmarshal Codec.exact (Media.marshal Codec.exact p) = .ok (Media.quantise Codec.exact p)
+abbrev rt (p : Media) : Prop := Media.unmarshal Codec.exactGo (Media.marshal Codec.exactGo p) = .ok (Media.quantise Codec.exactGo p)
 
 def base : Media := { version := 3, targetDuration := 2, segments := [seg1] }
 example : WFMedia base := by decide
@@ -289,8 +310,8 @@ example : ¬ rt { base with parts := [{ duration := 1000000000 }] } ∧ ¬ rt { 
 /-- the preload hint needs a URI -/
 example : ¬ rt { base with preloadHint := some {} } := by decide
 /-- a small negative hold-back is written `-0.00000`: it decodes (to 0) but `Marshal` is no fixpoint -/
-example : Media.marshal Codec.exact (Media.quantise Codec.exact { base with serverControl := some { partHoldBack := some (-1) } }) ≠
-    Media.marshal Codec.exact { base with serverControl := some { partHoldBack := some (-1) } } := by decide
+example : Media.marshal Codec.exactGo (Media.quantise Codec.exactGo { base with serverControl := some { partHoldBack := some (-1) } }) ≠
+    Media.marshal Codec.exactGo { base with serverControl := some { partHoldBack := some (-1) } } := by decide
 
 end
 
